@@ -624,7 +624,7 @@ func TestVerifStatusE2E(t *testing.T) {
 		t.Fatal(err)
 	}
 	defer os.RemoveAll(base)
-	for scen, variant := range []string{"failed-start", "projectors"} {
+	for scen, variant := range []string{"failed-start", "projectors", "rejected-config"} {
 		home := filepath.Join(base, variant)
 		suStartup(home)
 		port := vFreePort("tcp")
@@ -679,7 +679,24 @@ func TestVerifStatusE2E(t *testing.T) {
 			ctl.Start(&other, &ok)
 		}
 		// another persistent topic changes: the updater schedules its delayed save (2 s)
-		ctl.ConfigureTriangleSource(&TriangleSourceConfig{Nchan: 3, SampleRate: 30000, Min: 100, Max: 400}, &ok)
+		accTri := &TriangleSourceConfig{Nchan: 3, SampleRate: 30000, Min: 100, Max: 400}
+		ctl.ConfigureTriangleSource(accTri, &ok)
+		accepted := vmap{}
+		rejected := []string{}
+		if variant == "rejected-config" {
+			// requests the sources REFUSE (error reply): what is saved for the next start-up must stay what the sources accepted
+			accepted["TRIANGLE"] = suCanon(accTri)
+			accepted["SIMPULSE"] = suCanon(&SimPulseSourceConfig{Nchan: 2, SampleRate: 20000, Pedestal: 1000, Amplitudes: []float64{3000}, Nsamp: 400})
+			if err := ctl.ConfigureTriangleSource(&TriangleSourceConfig{Nchan: 2, SampleRate: 30000, Min: 500, Max: 100}, &ok); err == nil {
+				rejected = append(rejected, "triangle min>max accepted")
+			}
+			if err := ctl.ConfigureTriangleSource(&TriangleSourceConfig{Nchan: 2, SampleRate: 1, Min: 0, Max: 1000}, &ok); err == nil {
+				rejected = append(rejected, "triangle 2000 s cycle accepted")
+			}
+			if err := ctl.ConfigureSimPulseSource(&SimPulseSourceConfig{Nchan: -2, SampleRate: 20000, Pedestal: 1000, Amplitudes: []float64{3000}, Nsamp: 400}, &ok); err == nil {
+				rejected = append(rejected, "simpulse nchan<0 accepted")
+			}
+		}
 		drain()
 		time.Sleep(2600 * time.Millisecond)
 		drain()
@@ -703,7 +720,15 @@ func TestVerifStatusE2E(t *testing.T) {
 				}
 			}
 		}
-		vEmit(vmap{"ev": "E2E", "scen": scen + 1, "variant": variant, "topics": topics})
+		snap := ""
+		if sd := os.Getenv("VERIF_SNAPDIR"); sd != "" && variant == "rejected-config" {
+			// the configuration directory as the next start-up will find it: started for real by the cmd/dastard harness
+			snap = filepath.Join(sd, "sce2e_"+variant, "r1")
+			os.MkdirAll(snap, 0775)
+			suCopyDir(filepath.Join(home, ".dastard"), filepath.Join(snap, ".dastard"))
+			os.WriteFile(filepath.Join(snap, "FULLSTART"), []byte("x"), 0664)
+		}
+		vEmit(vmap{"ev": "E2E", "scen": scen + 1, "variant": variant, "topics": topics, "snap": snap, "accepted": accepted, "notrefused": rejected})
 		close(stopHB)
 		close(abort)
 		select {
